@@ -40,8 +40,9 @@ def programs(tier):
     # corpus S (systematic rule-shape sweep): the theories that must be accepted; every tenth in the quick tier
     sweep = [p for p in modelgen.load_corpus("s") if not modelgen.read_meta(p[1]).get("may_be_rejected")]
     if tier != "thorough":
-        # all single-atom premises (every repeated-variable pattern of every relation), every tenth of the pairs
-        single = [p for p in sweep if len(p[0].split("_")[1]) == 1]
+        # all single-atom premises (every repeated-variable pattern of every relation), all premise-equality placements,
+        # every tenth of the pairs
+        single = [p for p in sweep if len(p[0].split("_")[1]) == 1 or p[0].startswith("s_eq_")]
         sweep = single + [p for p in sweep if p not in single][::10]
     out += sweep
     return out
